@@ -93,9 +93,9 @@ MUTANTS = [
      "        .max()\n", "        .min()\n"),
     ("C10", "label-p2gg-as-p2mg", "src/wallpaper.rs",
      'name: "p2gg",', 'name: "p2mg",'),
-    ("C10", "ord-ignores-sign", "src/state/potential.rs",
+    ("C10", "lj-order-reversed", "src/state/potential.rs",
      "            (Some(s), Some(o)) => s.partial_cmp(&o),\n            (_, _) => None,\n        }\n    }\n}\n\nimpl<S> Ord for PotentialState<S>",
-     "            (Some(s), Some(o)) => s.abs().partial_cmp(&o.abs()),\n            (_, _) => None,\n        }\n    }\n}\n\nimpl<S> Ord for PotentialState<S>"),
+     "            (Some(s), Some(o)) => o.partial_cmp(&s),\n            (_, _) => None,\n        }\n    }\n}\n\nimpl<S> Ord for PotentialState<S>"),
     ("C09", "entropy-seed-in-last-stage", "src/main.rs",
      "                .kt_start(0.)\n                .seed(index)\n                .build()\n                .optimise_state(opt_state)\n        })\n        .max()",
      "                .kt_start(0.)\n                .build()\n                .optimise_state(opt_state)\n        })\n        .max()"),
